@@ -19,6 +19,10 @@ package main
 //	        | cins <k> <path> <hex> | cdel <k> <path> | cget <k> <path> | citer <k> | croot <k>   the operation on child trie k
 //	        | cmerge <k>    MergeMPTChanges(child k) into the shared trie while other goroutines keep updating child k
 //	        | validate      Validate(): must return nil (the trie is sane at every linearization point)
+//	        | insempty <path> | insnil <path>   Insert of a value encoding to zero bytes / of nil: must behave as Delete
+//	        | insbig <path>  Insert of an over-size value: must be rejected and change nothing
+//	        | pp            PrettyPrint to io.Discard
+//	        | mergechanges <path> <hex>   as mergechild, through MergeChanges(root, changes, deletes, startRoot)
 //	        | deletes       GetDeletes: number of nodes, and how many of them are MergeDB's dead nodes
 //	        | mergedb       MergeDB(donor store, donor root, two dead nodes): the trie becomes the donor trie
 //	        | mergechild <path> <hex>   child trie opened at the current root inserts the key, MergeMPTChanges(child)
@@ -33,6 +37,7 @@ import (
 	"bytes"
 	"context"
 	"fmt"
+	"io"
 	"math/rand"
 	"os"
 	"os/exec"
@@ -401,6 +406,32 @@ func c16Exec(mpt *util.MerklePatriciaTrie, db2 util.NodeDB, f []string, post *fu
 				return errKind(err)
 			}
 			return "ok " + rootStr(k)
+		case "insempty", "insnil", "insbig":
+			// Insert of a value that encodes to zero bytes, of a nil value (both must behave as Delete), of an
+			// over-size value (must be rejected)
+			var v util.MPTSerializable
+			switch f[0] {
+			case "insempty":
+				v = &sval{}
+			case "insbig":
+				v = mkVal(bigValue)
+			}
+			k, err := mpt.Insert([]byte(pathOf(f[1])), v)
+			if err != nil {
+				return errKind(err)
+			}
+			return "ok " + rootStr(k)
+		case "pp":
+			return errKind(mpt.PrettyPrint(io.Discard))
+		case "mergechanges":
+			// like mergechild, through the exported MergeChanges(root, changes, deletes, startRoot)
+			root := mpt.GetRoot()
+			child := newMPT(util.NewLevelNodeDB(util.NewMemoryNodeDB(), mpt.GetNodeDB(), false), c16Snap.version, root)
+			if _, err := child.Insert([]byte(pathOf(f[1])), mkVal(unhx(f[2]))); err != nil {
+				return "childfail"
+			}
+			nr, ch, dl, sr := child.GetChanges()
+			return errKind(mpt.MergeChanges(nr, ch, dl, sr))
 		case "del":
 			k, err := mpt.Delete([]byte(pathOf(f[1])))
 			if err != nil {
@@ -1006,11 +1037,14 @@ func runC16(ops []string) (res CaseResult) {
 			continue
 		}
 		soft := out == "nodenotfound" || out == "iterchild" || out == "missingnodes"
-		if soft && !removed && f[2] == "allmissing" {
+		if f[2] == "pp" && removed {
+			onlyGetsHit = false // PrettyPrint walks the whole trie and records every absent node it meets
+		}
+		if soft && !removed && (f[2] == "allmissing" || f[2] == "pp") {
 			// GetAllMissingNodes on an EMPTY trie looks up the nil root key, returns "node not found" and records
 			// a nil key in the missing-node list. Sequential behaviour, a matter of C17 (exact missing-node
 			// detection), not of the lock discipline: tolerated here, tagged for the distribution.
-			tags["allmissing-on-empty-trie"] = true
+			tags[f[2]+"-on-empty-trie"] = true
 			emptyProbe = true
 			continue
 		}
@@ -1051,11 +1085,26 @@ func runC16(ops []string) (res CaseResult) {
 			if strings.HasPrefix(out, "ok") {
 				updatesOK++
 			}
-		case "del":
+		case "del", "insempty", "insnil":
+			// an insert of an empty-encoding or nil value IS a delete
 			in = linIn{"del", pathOf(f[3]), ""}
+			if f[2] != "del" {
+				tags["insert-of-empty-or-nil-value"] = true
+			}
 			if strings.HasPrefix(out, "ok") {
 				updatesOK++
 			}
+		case "insbig":
+			tags["oversize-insert"] = true
+			if out != "toolarge" {
+				fail("op %d (%s): an over-size value was not rejected: %s", i, op, out)
+			}
+			continue
+		case "pp":
+			if out != "ok" && !removed {
+				fail("op %d (%s): PrettyPrint returned %s on a complete store", i, op, out)
+			}
+			continue
 		case "get":
 			in = linIn{"get", pathOf(f[3]), ""}
 		case "iter", "root", "changes", "changesread":
@@ -1103,7 +1152,7 @@ func runC16(ops []string) (res CaseResult) {
 			if out == "ok" {
 				updatesOK++
 			}
-		case "mergechild":
+		case "mergechild", "mergechanges":
 			in = linIn{"mergechild", pathOf(f[3]), f[4]}
 			fullState = true
 			if out == "ok" {
@@ -1472,6 +1521,9 @@ func genC16(r *rand.Rand, tier string, idx int) []string {
 					other = "4343"
 				}
 				line = fmt.Sprintf("ins %s %s", ptok(flipKeys[fk]), []string{orig, other}[flipCount[fk]%2])
+				if x >= 92 {
+					line = "insempty " + ptok(flipKeys[fk])
+				}
 			case "validator":
 				if x < 80 {
 					line = "validate"
@@ -1514,8 +1566,10 @@ func genC16(r *rand.Rand, tier string, idx int) []string {
 				switch {
 				case x < 40:
 					line = "mergedb"
-				case x < 70:
+				case x < 56:
 					line = "mergechild " + ptok(key()) + " " + genValue(r)
+				case x < 70:
+					line = "mergechanges " + ptok(key()) + " " + genValue(r)
 				case x < 90:
 					line = "ins " + ptok(key()) + " " + genValue(r)
 				default:
@@ -1558,6 +1612,8 @@ func genC16(r *rand.Rand, tier string, idx int) []string {
 					line = "root"
 				case x < 96:
 					line = "validate"
+				case x < 98:
+					line = "pp"
 				default:
 					line = "count"
 				}
@@ -1580,19 +1636,28 @@ func genC16(r *rand.Rand, tier string, idx int) []string {
 					line = "get " + ptok(key())
 				}
 			case "writer":
-				if x < 62 {
+				switch {
+				case x < 54:
 					line = "ins " + ptok(key()) + " " + genValue(r)
-				} else {
+				case x < 60:
+					line = []string{"insempty ", "insnil "}[x%2] + ptok(key())
+				case x < 62:
+					line = "insbig " + ptok(key())
+				default:
 					line = "del " + ptok(key())
 				}
 			default:
 				switch {
-				case x < 34:
+				case x < 28:
 					p := key()
 					line = "ins " + ptok(p) + " " + genValue(r)
 					if scenario != 1 {
 						pool = append(pool, p)
 					}
+				case x < 33:
+					line = []string{"insempty ", "insnil "}[x%2] + ptok(key()) // present or absent path
+				case x < 34:
+					line = "insbig " + ptok(key())
 				case x < 52:
 					line = "del " + ptok(key())
 				case x < 74:
